@@ -1323,11 +1323,15 @@ theorem sched_no_lost_update (c : Cfg) (sch : List Step) (r ts : Nat) (hr : r < 
     rw [hu] at hsum; simp only [Option.getD_some] at hsum
     simp only [pointsOf, hc, valAt_mergedFor_cum, stash] at h ⊢; omega
 
-/-- a race: thread 7 swaps for reader 0, an `Add` arrives, thread 8 swaps and builds for reader 1, then thread 7
-    builds.  Nothing is lost: reader 0 (delta) has received 5, and 3 more are pending for it. -/
+/-- a race: thread 7 swaps for reader 0 (taking the 5), an `Add` of 3 arrives, thread 8 swaps and builds for
+    reader 1, thread 7 has not built yet: for reader 0 nothing is delivered, 3 are pending in its stash, 5 are in
+    flight; after thread 7's build it receives all 8. -/
+example : let c : Cfg := ⟨[.delta, .cumulative]⟩
+    let s := crunRev c [.build 8, .swap 8 1 2, .add 4 3, .swap 7 0 1, .add 4 5]
+    (delivered 0 s.outs 4, valAt (pointsOf (collect c s.st 0 9).2) 4, flightSum s.inflight 4) = (0, 3, 5) := by decide
 example : let c : Cfg := ⟨[.delta, .cumulative]⟩
     let s := crunRev c [.build 7, .build 8, .swap 8 1 2, .add 4 3, .swap 7 0 1, .add 4 5]
-    (delivered 0 s.outs 4, valAt (pointsOf (collect c s.st 0 9).2) 4, s.inflight.length) = (5, 3, 0) := by decide
+    (delivered 0 s.outs 4, valAt (pointsOf (collect c s.st 0 9).2) 4, flightSum s.inflight 4) = (8, 0, 0) := by decide
 
 /-- the hypotheses of the reader theorems are satisfiable: configurations with a delta and a cumulative reader -/
 example : let c : Cfg := ⟨[.delta, .cumulative]⟩
